@@ -96,3 +96,18 @@ def before_after(loop):
         elts = loop.ast.target.elts
         return N.txt(elts[1]), N.txt(elts[3])
     return 'before', 'after'
+
+
+def leaf_defs(defs, name, seen=None):
+    """Definitions of a local with plain copies (x = y) followed to what y
+    was assigned."""
+    seen = seen if seen is not None else set()
+    out = []
+    for val in defs.get(name, []):
+        if isinstance(val, ast.Name) and val.id in defs and \
+                val.id not in seen:
+            seen.add(val.id)
+            out.extend(leaf_defs(defs, val.id, seen))
+        else:
+            out.append(val)
+    return out
